@@ -125,6 +125,9 @@ type Session struct {
 	Net          simnet.NetPlan `json:"net"`
 	F            simnet.Faults  `json:"faults"`
 	Log          bool           `json:"log,omitempty"`
+	// OnOpen / OnClose: lines the driver's on-open / on-close hook writes (with return) to the device
+	OnOpen  []string `json:"on_open,omitempty"`
+	OnClose []string `json:"on_close,omitempty"`
 	// Recover: after the first timed-out operation the device catches up (stall fault lifted).
 	Recover bool `json:"recover,omitempty"`
 	// StopAfterError: stop the workload after this many failed operations (0 = never).
@@ -384,6 +387,36 @@ func StartSession(env *Env, sc *Session) (*SessionRun, <-chan struct{}) {
 		li, _ := logging.NewInstance(logging.WithLevel(logging.Debug), logging.WithLogger(sr.Logs.log))
 		opts = append(opts, options.WithLogger(li), options.WithChannelLog(sr.Logs))
 	}
+	hook := func(lines []string) func(c *channel.Channel) error {
+		return func(c *channel.Channel) error {
+			for _, l := range lines {
+				if err := c.WriteAndReturn([]byte(l), false); err != nil {
+					return err
+				}
+			}
+
+			return nil
+		}
+	}
+	if sc.Driver != "network" {
+		if len(sc.OnOpen) > 0 {
+			f := hook(sc.OnOpen)
+			opts = append(opts, options.WithOnOpen(func(d *generic.Driver) error { return f(d.Channel) }))
+		}
+		if len(sc.OnClose) > 0 {
+			f := hook(sc.OnClose)
+			opts = append(opts, options.WithOnClose(func(d *generic.Driver) error { return f(d.Channel) }))
+		}
+	} else {
+		if len(sc.OnOpen) > 0 {
+			f := hook(sc.OnOpen)
+			opts = append(opts, options.WithNetworkOnOpen(func(d *network.Driver) error { return f(d.Channel) }))
+		}
+		if len(sc.OnClose) > 0 {
+			f := hook(sc.OnClose)
+			opts = append(opts, options.WithNetworkOnClose(func(d *network.Driver) error { return f(d.Channel) }))
+		}
+	}
 	var err error
 	switch sc.Driver {
 	case "network":
@@ -519,6 +552,10 @@ func (sr *SessionRun) do(env *Env, op *OpSpec, o []util.Option, rec *OpRec) {
 		return ev
 	}
 	switch op.Kind {
+	case "readall":
+		var b []byte
+		b, rec.Err = g.Channel.ReadAll()
+		rec.Result = string(b)
 	case "getprompt":
 		var p string
 		p, rec.Err = g.GetPrompt()
